@@ -76,6 +76,9 @@ PRIMERS = [(16, 0xC100 + n) for n in (1, 2, 3, 4, 5, 6, 7, 8, 0, 255)] + [(16, 0
                                                                           (24, 0xC13001), (24, 0xC10000), (24, 0xC50102)]
 
 
+_CLONE = [0]
+
+
 def roundtrip(res, table, cls, build, canon, fields, dt=None, dmap=None, ctx=None):
     """build() -> object; fields(obj) -> comparable tuple (by kind/number); compare with the decoded object."""
     from dali import command
@@ -139,6 +142,30 @@ def roundtrip(res, table, cls, build, canon, fields, dt=None, dmap=None, ctx=Non
     if sa != sb:
         res.violation(f"C02/text-differs/{cls.__name__}", f"text {sa!r} decodes back as {sb!r}",
                       {"cls": cls.__name__, "args": repr(canon), "frame": v})
+        return
+    # copies made by the standard library (an application queueing, logging or shipping commands to a worker) are the same
+    # command: class, fields, frame and text - every 16th object, all three ways
+    _CLONE[0] += 1
+    if _CLONE[0] % 16 == 0 and not USERSUB:
+        import copy
+        import pickle
+        for how, fn in (("copy", copy.copy), ("deepcopy", copy.deepcopy), ("pickle", lambda o: pickle.loads(pickle.dumps(o)))):
+            try:
+                twin = fn(obj)
+            except Exception as e:
+                res.observe(f"{how}-raises-{type(e).__name__}", cls.__name__)
+                continue
+            res.hit("clones_checked")
+            try:
+                same = (type(twin) is cls and len(twin.frame) == n and twin.frame.as_integer == v and fields(twin) == fa
+                        and _fields_eq(obj, twin) and str(twin) == sa)
+                shown = f"{type(twin).__name__} {fields(twin)} frame {twin.frame.as_integer:#x} text {str(twin)!r}"
+            except Exception as e:
+                same, shown = False, f"reading it raised {type(e).__name__}: {e}"
+            if not same:
+                res.violation(f"C02/clone-differs/{how}/{cls.__name__}", f"{how} of {sa} (frame {v:#x}) is {shown}",
+                              {"cls": cls.__name__, "args": repr(canon), "frame": v, "how": how})
+                break
 
 
 _FIELD_NAMES = ("destination", "param", "power", "address", "broadcast", "param_1", "param_2", "instance",
@@ -231,7 +258,7 @@ def run_cmds(desc, tier, seed, res):
                     powers = range(256)
                     for p in powers:
                         roundtrip(res, table, cls, lambda: cls(d, p), (dd, p), cmd_fields)
-                    for name, val in (("OFF", 0), ("MASK", 255)):
+                    for name, val in (("OFF", 0), ("MASK", 255), ("off".upper(), 0), ("".join(["MA", "SK"]), 255)):
                         roundtrip(res, table, cls, lambda: cls(d, name), (dd, val), cmd_fields)
         elif k == "spc0":
             roundtrip(res, table, cls, lambda: cls(), (), cmd_fields)
@@ -239,7 +266,8 @@ def run_cmds(desc, tier, seed, res):
             for p in range(256):
                 roundtrip(res, table, cls, lambda: cls(p), (p,), cmd_fields)
         elif k == "spca":
-            for a in list(range(64)) + ["MASK"]:
+            # "MASK" as a literal and as an equal string that is another object (read from a file, a command line, upper())
+            for a in list(range(64)) + ["MASK", "".join(["MA", "SK"]), "mask".upper()]:
                 roundtrip(res, table, cls, lambda: cls(a), (a,), cmd_fields)
         elif k == "init":
             roundtrip(res, table, cls, lambda: cls(broadcast=True), ("broadcast",), cmd_fields)
